@@ -574,6 +574,9 @@ func evictPods(
 			klog.V(4).InfoS("Updated node usage", keysAndValues...)
 		}
 	}
+	// the last eviction may have brought the node back under its threshold: let the condition see the final
+	// estimate (it resets the node's anomaly detector in that case)
+	continueEviction(nodeInfo, totalAvailableUsages, prod)
 }
 
 // sortNodesByUsage sorts nodes based on usage.
